@@ -782,6 +782,34 @@ func (p *player) framesChanged() int {
 	return n
 }
 
+// socketsAtStart: the sockets this process was started with (an inherited standard stream can be one)
+var socketsAtStart = openSockets()
+
+func openSockets() map[string]bool {
+	out := map[string]bool{}
+	ents, err := os.ReadDir("/proc/self/fd")
+	if err != nil {
+		return out
+	}
+	for _, e := range ents {
+		if l, err := os.Readlink("/proc/self/fd/" + e.Name()); err == nil && strings.HasPrefix(l, "socket:") {
+			out[l] = true
+		}
+	}
+	return out
+}
+
+// countSockets: sockets open in this process that it was not started with
+func countSockets() int {
+	n := 0
+	for l := range openSockets() {
+		if !socketsAtStart[l] {
+			n++
+		}
+	}
+	return n
+}
+
 func gomavlibGoroutines() int {
 	buf := make([]byte, 1<<20)
 	n := runtime.Stack(buf, true)
@@ -886,6 +914,24 @@ func (p *player) final(baseline int, evClosed bool) {
 		}
 		time.Sleep(5 * time.Millisecond)
 	}
+	// descriptors: once the harness has closed every socket of its own, no socket may be left open in this process
+	// (a connection whose peer went away first must be closed by the node all the same)
+	p.mu.Lock()
+	for _, c := range p.peers {
+		if c != nil {
+			c.Close()
+		}
+	}
+	p.mu.Unlock()
+	socketsLeft := 0
+	dl3 := time.Now().Add(time.Second)
+	for {
+		socketsLeft = countSockets()
+		if socketsLeft == 0 || time.Now().After(dl3) {
+			break
+		}
+		time.Sleep(5 * time.Millisecond)
+	}
 	serialOpen := 0
 	p.mu.Lock()
 	for _, c := range p.serials {
@@ -898,5 +944,5 @@ func (p *player) final(baseline int, evClosed bool) {
 	p.mu.Unlock()
 	p.rec.Put(M{"e": "Final", "goroutines_left": left, "stacks": stacks, "ports_rebound": rebound, "custom_close": closes,
 		"events_closed": evClosed, "conns_not_released": notReleased, "serial_not_closed": serialOpen,
-		"frames_changed_after_delivery": p.framesChanged(), "t": p.ms()})
+		"frames_changed_after_delivery": p.framesChanged(), "sockets_left": socketsLeft, "t": p.ms()})
 }
